@@ -23,7 +23,7 @@ Record wf11 (i : t_in) : Prop := {
 
 Lemma wf_wf11 i : wf i -> wf11 i.
 Proof.
-  intros [A B C D E F G]. constructor; auto. now apply status_sound_index.
+  intros [A B C D E F G H]. constructor; auto. now apply status_sound_index.
 Qed.
 
 (* ---- the shape of one run ---- *)
@@ -50,7 +50,7 @@ Proof.
 Qed.
 
 Lemma transfer_DT (S : Prop) i st dix six :
-  wf11 i -> (S -> closed (t_parse i) (t_dst i) /\ ix_sound i /\ closed_request i) ->
+  wf11 i -> (S -> closed (t_parse i) (t_dst i) /\ ix_sound i /\ closed_request i /\ trunc_unparsable i) ->
   compare_status i = inr (st, dix, six) ->
   DT S i (c_new st) (c_missing st)
      (fst (do_transfer i (c_new st) (c_missing st))) (snd (do_transfer i (c_new st) (c_missing st))).
@@ -60,14 +60,15 @@ Proof.
   apply do_transfer_spec; auto.
   - intros o Ho. now apply (sf_new _ _ _ SF).
   - intros D l f. now apply find_tree_flat.
-  - intros HS' D l f HDn HDd HT Hfl. destruct (HS HS') as [H1 [H2 H3]].
+  - intros HS' D l f HDn HDd HT Hfl. destruct (HS HS') as [H1 [H2 [H3 _]]].
     destruct (compare_status_pre i st dix six Hf Hc H1 H2 H3 EC) as [_ P2 _].
     destruct (P2 D l f HDn HDd HT Hfl). auto.
   - intros D l l'. now apply find_tree_src.
+  - intros HS'. destruct (HS HS') as [_ [_ [_ H4]]]. exact H4.
 Qed.
 
 Lemma transfer_safe (S : Prop) i :
-  wf11 i -> (S -> closed (t_parse i) (t_dst i) /\ ix_sound i /\ closed_request i) ->
+  wf11 i -> (S -> closed (t_parse i) (t_dst i) /\ ix_sound i /\ closed_request i /\ trunc_unparsable i) ->
   safe S i (t_dst i) (o_events (transfer i)).
 Proof.
   intros Hw HS. destruct (transfer_inv i) as [[k [_ [_ [E _]]]]|[st [dix [six [EC [_ [[_ [E _]]|[_ [E _]]]]]]]]];
@@ -84,8 +85,20 @@ Proof.
   unfold stable. now rewrite H.
 Qed.
 
-Lemma wf_strict i : wf i -> True -> closed (t_parse i) (t_dst i) /\ ix_sound i /\ closed_request i.
-Proof. intros [A B C D E F G] _. auto. Qed.
+Lemma wf_strict i : wf i -> True ->
+  closed (t_parse i) (t_dst i) /\ ix_sound i /\ closed_request i /\ trunc_unparsable i.
+Proof. intros [A B C D E F G H] _. auto. Qed.
+
+(* stronger than closure: every file listed by a directory object that is present was there
+   before the transfer or arrived whole ([stable]) - never a truncated leftover of a failed
+   non-atomic upload, never an object that verification is about to remove *)
+Theorem prefix_intact : forall i n, wf i -> Inv i (w_dst (killed_world i n)).
+Proof.
+  intros i n Hw. rewrite killed_dst_eq.
+  apply (safe_Inv True); auto.
+  - apply closed_Inv. apply (wf_closed _ Hw).
+  - apply safe_firstn. apply transfer_safe; [now apply wf_wf11|now apply wf_strict].
+Qed.
 
 Theorem prefix_closed : forall i n, wf i -> closed (t_parse i) (w_dst (killed_world i n)).
 Proof.
@@ -107,7 +120,8 @@ Proof.
   induction evs as [|e r IH]; intros n.
   - exists O. destruct n; reflexivity.
   - destruct n as [|n]; [exists O; reflexivity|].
-    destruct e as [o ok|o|d fs|]; simpl.
+    destruct e as [o ok|o pb|o|d fs|]; simpl.
+    + destruct (IH n) as [m Hm]. exists (Datatypes.S m). simpl. now rewrite Hm.
     + destruct (IH n) as [m Hm]. exists (Datatypes.S m). simpl. now rewrite Hm.
     + destruct (IH (Datatypes.S n)) as [m Hm]. exists (Datatypes.S m). simpl. simpl in Hm. now rewrite Hm.
     + destruct (IH (Datatypes.S n)) as [m Hm]. exists (Datatypes.S m). simpl. simpl in Hm. now rewrite Hm.
@@ -156,28 +170,39 @@ Theorem withheld : forall i st tr fl D l f,
   wf i -> o_status (transfer i) = Some st -> o_outcome (transfer i) = TOk tr fl ->
   In D (c_new st) -> is_dir_oid D = true -> find_tree i D = Some l -> In f l ->
   has (dst_after i) f = false ->
-  has (dst_after i) D = false /\ (In D fl \/ exists g, In g l /\ In g (c_missing st)).
+  (has (dst_after i) D = false \/ exists b, In (Partial D b) (o_events (transfer i))) /\
+  (In D fl \/ exists g, In g l /\ In g (c_missing st)).
 Proof.
   intros i st tr fl D l f Hw HS HO HDn HDd HT Hf Hfa.
   destruct (outcome_ok i tr fl HO) as [st' [dix [six [EC [HS' Hcase]]]]].
   rewrite HS in HS'. inversion HS'; subst st'. clear HS'.
   destruct Hcase as [[En _]|[En [Esnd [Etr Eev]]]]; [rewrite En in HDn; contradiction|].
   pose proof (transfer_DT True i st dix six (wf_wf11 i Hw) (wf_strict i Hw) EC) as HDT.
-  assert (HnoD : has (dst_after i) D = false).
-  { destruct (has (dst_after i) D) eqn:EhD; auto. exfalso.
+  assert (HnoD : has (dst_after i) D = false \/ exists b, In (Partial D b) (o_events (transfer i))).
+  { destruct (has (dst_after i) D) eqn:EhD; auto.
     apply has_lookup in EhD. destruct EhD as [b Lb].
-    assert (Lsrc : lookup D (t_src i) = Some b).
-    { rewrite dst_after_eq in Lb. apply apply_dst_origin in Lb. destruct Lb as [Lb|Lb]; auto.
-      pose proof (dt_oid _ _ _ _ _ _ HDT) as _.
-      destruct (compare_status_facts i st dix six (w_coh _ (wf_wf11 i Hw)) (w_sound _ (wf_wf11 i Hw)) EC) as [h SF].
-      destruct (sf_new _ _ _ SF D HDn) as [_ Hn]. apply has_false in Hn. congruence. }
-    pose proof (find_tree_src_some i D l b (wf_coh _ Hw) HT Lsrc) as Pb.
+    pose proof Lb as Lb'. rewrite dst_after_eq in Lb'. apply apply_dst_origin in Lb'.
+    destruct Lb' as [Lb'|[Lsrc|HP]]; [exfalso| exfalso |right; eauto].
+    - destruct (compare_status_facts i st dix six (w_coh _ (wf_wf11 i Hw)) (w_sound _ (wf_wf11 i Hw)) EC) as [h SF].
+      destruct (sf_new _ _ _ SF D HDn) as [_ Hn]. apply has_false in Hn. congruence.
+    - pose proof (find_tree_src_some i D l b (wf_coh _ Hw) HT Lsrc) as Pb.
+      assert (Hcl : closed (t_parse i) (dst_after i)) by now apply final_closed.
+      assert (HL : listing (t_parse i) (dst_after i) D = Some l) by (unfold listing; now rewrite HDd, Lb).
+      rewrite (Hcl D l f HL Hf) in Hfa. discriminate. }
+  split; auto.
+  destruct (dt_dirs _ _ _ _ _ _ HDT fl D l Esnd HDn HDd HT) as [[Hdl H]|[[H _]|H]]; auto.
+  exfalso. rewrite <- Eev, <- dst_after_eq in H.
+  (* D delivered and present: its bytes are the source's, so it would list f *)
+  apply has_lookup in H. destruct H as [b Lb].
+  pose proof Lb as Lb'. rewrite dst_after_eq in Lb'. apply apply_dst_origin in Lb'.
+  destruct Lb' as [Lb'|[Lsrc|HP]].
+  - destruct (compare_status_facts i st dix six (w_coh _ (wf_wf11 i Hw)) (w_sound _ (wf_wf11 i Hw)) EC) as [h SF].
+    destruct (sf_new _ _ _ SF D HDn) as [_ Hn]. apply has_false in Hn. congruence.
+  - pose proof (find_tree_src_some i D l b (wf_coh _ Hw) HT Lsrc) as Pb.
     assert (Hcl : closed (t_parse i) (dst_after i)) by now apply final_closed.
     assert (HL : listing (t_parse i) (dst_after i) D = Some l) by (unfold listing; now rewrite HDd, Lb).
-    rewrite (Hcl D l f HL Hf) in Hfa. discriminate. }
-  split; auto.
-  destruct (dt_dirs _ _ _ _ _ _ HDT fl D l Esnd HDn HDd HT) as [[_ H]|[[H _]|H]]; auto.
-  rewrite <- Eev, <- dst_after_eq in H. congruence.
+    rewrite (Hcl D l f HL Hf) in Hfa. discriminate.
+  - rewrite Eev in HP. apply (do_transfer_partial i _ _ (wf_bord _ Hw)) in HP. congruence.
 Qed.
 
 Lemma delivered_src i o : delivered i o = true -> has (t_src i) o = true.
@@ -188,8 +213,8 @@ Qed.
 Lemma delivered_faultfree i o : (forall x, t_fails i x = false) ->
   delivered i o = has (t_src i) o && negb (t_verify i && t_corrupt i o).
 Proof.
-  intros Hf. unfold delivered, dropped, upload_ok. rewrite Hf. simpl.
-  destruct (has (t_src i) o); simpl; auto. now rewrite andb_true_r.
+  intros Hf. unfold delivered, dropped, upload_ok, part_written. rewrite Hf. simpl.
+  destruct (has (t_src i) o), (t_verify i), (t_corrupt i o); reflexivity.
 Qed.
 
 (* a round whose uploads all succeed completes the destination: every requested object whose
@@ -234,9 +259,15 @@ Qed.
 (* the retry after ANY first round (aborted anywhere, any failures), without index: the
    destination the first round leaves is a legal start of the next round *)
 Lemma agree_after parse c src d evs :
+  (forall o b, ~ In (Partial o b) evs) ->
   agree parse c src -> agree parse c d -> agree parse c (apply_dst src evs d).
 Proof.
-  intros H1 H2 D b1 b2 L1 L2. apply apply_dst_origin in L2. destruct L2; eauto.
+  intros HP H1 H2 D b1 b2 L1 L2. apply apply_dst_origin in L2. destruct L2 as [L2|[L2|L2]]; eauto.
+  exfalso. eapply HP; eauto.
+Qed.
+Lemma In_firstn {A} (x : A) l : forall n, In x (firstn n l) -> In x l.
+Proof.
+  induction l as [|y r IH]; intros [|n]; simpl; try tauto. intros [H|H]; eauto.
 Qed.
 
 Theorem retry_wf : forall i1 n i2,
@@ -244,17 +275,19 @@ Theorem retry_wf : forall i1 n i2,
   t_src i2 = t_src i1 -> t_cache i2 = t_cache i1 -> t_parse i2 = t_parse i1 ->
   t_req i2 = t_req i1 -> t_shallow i2 = t_shallow i1 ->
   t_dst i2 = w_dst (killed_world i1 n) -> t_dix i2 = None ->
-  ord_ok (t_bord i2) -> ord_ok (t_dord i2) ->
+  ord_ok (t_bord i2) -> ord_ok (t_dord i2) -> trunc_unparsable i2 ->
+  (forall o b, ~ In (Partial o b) (o_events (transfer i1))) ->      (* atomic uploads in the first round *)
   wf i2.
 Proof.
-  intros i1 n i2 Hw Es Ec Ep Er Esh Ed Ex Hb Hd.
+  intros i1 n i2 Hw Es Ec Ep Er Esh Ed Ex Hb Hd Htr Hat.
   assert (Hft : forall D, find_tree i2 D = find_tree i1 D).
   { intros D. unfold find_tree. now rewrite Es, Ec, Ep. }
   assert (Hsc : status_cache i2 = status_cache i1) by (unfold status_cache; now rewrite Es, Ec).
   constructor; auto.
   - intros b l f. rewrite Ep. apply (wf_flat _ Hw).
   - destruct (wf_coh _ Hw) as [A B]. unfold coherent. rewrite Hsc, Es, Ep, Ed. split; auto.
-    rewrite killed_dst_eq. now apply agree_after.
+    rewrite killed_dst_eq. apply agree_after; auto.
+    intros o b H. apply In_firstn in H. now apply (Hat o b).
   - rewrite Ep, Ed. now apply prefix_closed.
   - unfold ix_sound. now rewrite Ex.
   - destruct (wf_req _ Hw) as [H|H]; [left; congruence|right].
@@ -299,18 +332,43 @@ Proof.
   pose proof (transfer_DT False i st dix six Hw (fun F : False => match F with end) EC) as HDT.
   destruct (compare_status_facts i st dix six (w_coh _ Hw) (w_sound _ Hw) EC) as [h SF].
   apply diff_In in Ho. destruct Ho as [Hn Hnf].
-  assert (Hh : has (dst_after i) o = true).
+  assert (Hh : delivered i o = true /\ has (dst_after i) o = true).
   { rewrite dst_after_eq, Eev. destruct (is_dir_oid o) eqn:Ed.
     - destruct (dt_trees _ _ _ _ _ _ HDT fl o Esnd Hn Ed) as [l HT].
-      destruct (dt_dirs _ _ _ _ _ _ HDT fl o l Esnd Hn Ed HT) as [[_ H]|[[H _]|[g [Hg1 Hg2]]]].
+      destruct (dt_dirs _ _ _ _ _ _ HDT fl o l Esnd Hn Ed HT) as [H|[[H _]|[g [Hg1 Hg2]]]].
       + exact H.
       + exfalso. exact (Hnf H).
       + exfalso. exact (Hnm o l g Hn Ed HT Hg1 Hg2).
-    - destruct (dt_files _ _ _ _ _ _ HDT fl o Esnd Hn Ed) as [H|[_ H]]; [exfalso; exact (Hnf H)|exact H]. }
-  split; auto.
+    - destruct (dt_files _ _ _ _ _ _ HDT fl o Esnd Hn Ed) as [H|H]; [exfalso; exact (Hnf H)|exact H]. }
+  destruct Hh as [Hdl Hh]. split; auto.
   apply has_lookup in Hh. destruct Hh as [b Lb]. rewrite Lb.
-  rewrite dst_after_eq in Lb. apply apply_dst_origin in Lb. destruct Lb as [Lb|Lb]; auto.
-  destruct (sf_new _ _ _ SF o Hn) as [_ H]. apply has_false in H. congruence.
+  rewrite dst_after_eq in Lb. apply apply_dst_origin in Lb. destruct Lb as [Lb|[Lb|Lb]]; auto.
+  - destruct (sf_new _ _ _ SF o Hn) as [_ H]. apply has_false in H. congruence.
+  - (* a truncated leftover under o would mean its upload failed *)
+    rewrite Eev in Lb. apply (do_transfer_partial i _ _ (w_bord _ Hw)) in Lb. congruence.
+Qed.
+
+(* an upload that left a truncated object under the final name is reported failed *)
+Theorem partial_failed : forall i st tr fl o b,
+  wf11 i -> o_status (transfer i) = Some st -> o_outcome (transfer i) = TOk tr fl ->
+  no_dir_missing i st -> In (Partial o b) (o_events (transfer i)) -> In o fl /\ ~ In o tr.
+Proof.
+  intros i st tr fl o b Hw HS HO Hnm HP.
+  destruct (outcome_ok i tr fl HO) as [st' [dix [six [EC [HS' Hcase]]]]].
+  rewrite HS in HS'. inversion HS'; subst st'. clear HS'.
+  destruct Hcase as [[En [_ [_ Ee]]]|[En [Esnd [-> Eev]]]]; [rewrite Ee in HP; destruct HP|].
+  pose proof (transfer_DT False i st dix six Hw (fun F : False => match F with end) EC) as HDT.
+  rewrite Eev in HP.
+  pose proof (do_transfer_partial i _ _ (w_bord _ Hw) o b HP) as Hnd.
+  assert (Hn : In o (c_new st)) by (apply (dt_oid _ _ _ _ _ _ HDT _ o HP); reflexivity).
+  assert (Hf : In o fl).
+  { destruct (is_dir_oid o) eqn:Ed.
+    - destruct (dt_trees _ _ _ _ _ _ HDT fl o Esnd Hn Ed) as [l HT].
+      destruct (dt_dirs _ _ _ _ _ _ HDT fl o l Esnd Hn Ed HT) as [[H _]|[[H _]|[g [Hg1 Hg2]]]]; auto.
+      + congruence.
+      + exfalso. exact (Hnm o l g Hn Ed HT Hg1 Hg2).
+    - destruct (dt_files _ _ _ _ _ _ HDT fl o Esnd Hn Ed) as [H|[H _]]; auto. congruence. }
+  split; auto. intros Ht. apply diff_In in Ht. tauto.
 Qed.
 
 Theorem absent_reported : forall i st tr fl o,
@@ -378,11 +436,12 @@ Definition ex_in (src : store) (req fails : list oid) (verify : bool) : t_in :=
   {| t_src := src; t_dst := []; t_cache := None; t_parse := ex_parse;
      t_corrupt := fun _ => false; t_req := req; t_shallow := false; t_verify := verify;
      t_dix := None; t_six := None; t_fails := fun o => mem o fails;
+     t_part := fun _ => false; t_trunc := fun _ => [];
      t_dord := fun l => l; t_bord := fun l => l |}.
 
 Lemma ex_wf src req fails verify : wf (ex_in src req fails verify).
 Proof.
-  constructor; unfold flat_parse, coherent, ix_sound, closed_request, status_cache; simpl.
+  constructor; unfold flat_parse, coherent, ix_sound, closed_request, status_cache, trunc_unparsable; simpl.
   - intros l o; tauto.
   - intros l o; tauto.
   - intros b l f H Hf. revert H. unfold ex_parse.
@@ -394,6 +453,7 @@ Proof.
   - intros D l f H. unfold listing in H. simpl in H. destruct (is_dir_oid D); discriminate.
   - exact I.
   - left. reflexivity.
+  - intros o _. reflexivity.
 Qed.
 
 (* two directories share f2, whose upload fails: both are withheld and reported, f1 arrives *)
@@ -411,11 +471,15 @@ Definition ex1_retry : t_in :=
   {| t_src := t_src ex1; t_dst := dst_after ex1; t_cache := None; t_parse := ex_parse;
      t_corrupt := fun _ => false; t_req := t_req ex1; t_shallow := false; t_verify := false;
      t_dix := None; t_six := None; t_fails := fun _ => false;
+     t_part := fun _ => false; t_trunc := fun _ => [];
      t_dord := fun l => l; t_bord := fun l => l |}.
 Example ex1_retry_wf : wf ex1_retry.
 Proof.
   apply (retry_wf ex1 (length (o_events (transfer ex1))) ex1_retry ex1_wf); try reflexivity.
-  all: intros l o; simpl; tauto.
+  - intros l o; simpl; tauto.
+  - intros l o; simpl; tauto.
+  - intros o _. reflexivity.
+  - intros o b H. vm_compute in H. repeat (destruct H as [H|H]; [discriminate|]). exact H.
 Qed.
 Example ex1_retry_run :
   exists tr, o_outcome (transfer ex1_retry) = TOk tr [] /\
@@ -475,7 +539,8 @@ Definition ex_open : t_in :=
   {| t_src := [(f1, [11]); (f2, [12]); (d1, [1])]; t_dst := [(f1, [11])]; t_cache := None;
      t_parse := ex_parse; t_corrupt := fun o => list_N_eqb o f2; t_req := [d1; f2];
      t_shallow := true; t_verify := true; t_dix := None; t_six := None;
-     t_fails := fun _ => false; t_dord := fun l => l; t_bord := fun l => l |}.
+     t_fails := fun _ => false; t_part := fun _ => false; t_trunc := fun _ => [];
+     t_dord := fun l => l; t_bord := fun l => l |}.
 Example ex_open_wf11 : wf11 ex_open.
 Proof.
   constructor; unfold flat_parse, coherent, status_cache; simpl.
@@ -492,4 +557,23 @@ Example ex_open_run :
   o_outcome (transfer ex_open) = TOk [] [d1; f2] /\
   filter is_store_event (o_events (transfer ex_open)) = [Put f2 true; Drop f2] /\
   map fst (dst_after ex_open) = [f1].
+Proof. vm_compute. auto. Qed.
+
+(* a non-atomic upload: f2's upload fails after truncated bytes [7] were written under f2; d1
+   lists f2 and is withheld; f2 is reported failed although an object sits under its name *)
+Definition ex_part : t_in :=
+  {| t_src := [(f1, [11]); (f2, [12]); (d1, [1])]; t_dst := []; t_cache := None; t_parse := ex_parse;
+     t_corrupt := fun _ => false; t_req := [d1]; t_shallow := false; t_verify := false;
+     t_dix := None; t_six := None; t_fails := fun o => list_N_eqb o f2;
+     t_part := fun _ => true; t_trunc := fun _ => [7];
+     t_dord := fun l => l; t_bord := fun l => l |}.
+Example ex_part_wf : wf ex_part.
+Proof.
+  pose proof (ex_wf [(f1, [11]); (f2, [12]); (d1, [1])] [d1] [] false) as [A B C D E F G H].
+  constructor; auto.
+Qed.
+Example ex_part_run :
+  o_events (transfer ex_part) = [Put f1 true; Partial f2 [7]; SrcIndexClear] /\
+  o_outcome (transfer ex_part) = TOk [f1] [d1; f2] /\
+  lookup f2 (dst_after ex_part) = Some [7] /\ has (dst_after ex_part) d1 = false.
 Proof. vm_compute. auto. Qed.
